@@ -51,6 +51,14 @@ func cellToken(n *pg_query.Node) string {
 	return "O0"
 }
 
+// setToken: a value of ON CONFLICT DO UPDATE SET; `excluded.col` is the value proposed for insertion (O1)
+func setToken(n *pg_query.Node) string {
+	if cr := n.GetColumnRef(); cr != nil && len(cr.GetFields()) == 2 && cr.GetFields()[0].GetString_().GetSval() == "excluded" {
+		return "O1"
+	}
+	return cellToken(n)
+}
+
 func targetTokens(list []*pg_query.Node) string {
 	var out []string
 	for _, n := range list {
@@ -90,13 +98,14 @@ func Describe(sql string) string {
 	case st.GetInsertStmt() != nil:
 		ins := st.GetInsertStmt()
 		sel := ins.GetSelectStmt().GetSelectStmt()
-		if sel == nil || len(sel.GetValuesLists()) == 0 {
+		if sel == nil {
 			return "X"
 		}
 		var cols, rows []string
 		for _, c := range ins.GetCols() {
 			cols = append(cols, c.GetResTarget().GetName())
 		}
+		src := "V"
 		for _, l := range sel.GetValuesLists() {
 			var cells []string
 			for _, it := range l.GetList().GetItems() {
@@ -104,14 +113,48 @@ func Describe(sql string) string {
 			}
 			rows = append(rows, listOr(cells, ","))
 		}
-		return "I:" + ins.GetRelation().GetRelname() + ":" + listOr(cols, ",") + ":" + listOr(rows, ";") + ":" + targetTokens(ins.GetReturningList())
+		if len(sel.GetValuesLists()) == 0 {
+			// INSERT … SELECT <expressions>
+			if len(sel.GetTargetList()) == 0 || len(sel.GetFromClause()) != 0 {
+				return "X"
+			}
+			src = "S"
+			var cells []string
+			for _, it := range sel.GetTargetList() {
+				cells = append(cells, cellToken(it.GetResTarget().GetVal()))
+			}
+			rows = append(rows, listOr(cells, ","))
+		}
+		tok := "I:" + ins.GetRelation().GetRelname() + ":" + listOr(cols, ",") + ":" + listOr(rows, ";") + ":" + targetTokens(ins.GetReturningList())
+		if oc := ins.GetOnConflictClause(); oc != nil || src == "S" {
+			var sets []string
+			for _, tl := range oc.GetTargetList() {
+				sets = append(sets, tl.GetResTarget().GetName()+"="+setToken(tl.GetResTarget().GetVal()))
+			}
+			tok += ":" + listOr(sets, ",") + ":" + src
+		}
+		return tok
 	case st.GetUpdateStmt() != nil:
 		u := st.GetUpdateStmt()
 		var sets []string
+		multi := false
 		for _, tl := range u.GetTargetList() {
-			sets = append(sets, tl.GetResTarget().GetName()+"="+cellToken(tl.GetResTarget().GetVal()))
+			v := tl.GetResTarget().GetVal()
+			if mr := v.GetMultiAssignRef(); mr != nil {
+				// SET (a, b) = (x, y): the value of the n-th target is the n-th field of the row
+				multi = true
+				args := mr.GetSource().GetRowExpr().GetArgs()
+				if k := int(mr.GetColno()) - 1; k >= 0 && k < len(args) {
+					v = args[k]
+				}
+			}
+			sets = append(sets, tl.GetResTarget().GetName()+"="+cellToken(v))
 		}
-		return "U:" + u.GetRelation().GetRelname() + ":" + aliasOf(u.GetRelation()) + ":" + listOr(sets, ",") + ":" + targetTokens(u.GetReturningList())
+		tok := "U:" + u.GetRelation().GetRelname() + ":" + aliasOf(u.GetRelation()) + ":" + listOr(sets, ",") + ":" + targetTokens(u.GetReturningList())
+		if multi {
+			tok += ":M"
+		}
+		return tok
 	case st.GetSelectStmt() != nil:
 		s := st.GetSelectStmt()
 		if len(s.GetFromClause()) != 1 || s.GetFromClause()[0].GetRangeVar() == nil {
